@@ -172,8 +172,8 @@ M("c20-verify-rounds", "C20", "verify_training_cfg rounds odd max_height up", "s
 
 MDL = "sleap_nn/architectures/model.py"
 ED = "sleap_nn/architectures/encoder_decoder.py"
-M("c14-revert-head-sizing", "C14", "revert head sizing fix", MDL, "            factor = (len(strides) - 1) - strides.index(head.output_stride)\n            if factor != 0:", "            factor = strides.index(min_output_stride) - strides.index(head.output_stride) if head.output_stride != min_output_stride else 0\n            if factor != 0:")
-M("c14-exponent-off", "C14", "head in_channels exponent off by one for bottom-up second head", MDL, "            factor = (len(strides) - 1) - strides.index(head.output_stride)\n", "            factor = (len(strides) - 1) - strides.index(head.output_stride) - (1 if len(self.heads) > 1 and head is self.heads[1] and strides.index(head.output_stride) < len(strides) - 1 else 0)\n")
+M("c14-revert-head-sizing", "C14", "heads sized for the block at the minimum head stride (pre-fix behaviour of single heads above the stem stride)", MDL, "            block = self.backbone.dec.decoder_stack[strides.index(head.output_stride)]\n", "            block = self.backbone.dec.decoder_stack[strides.index(head.output_stride) if head.output_stride != min_output_stride else len(strides) - 1]\n")
+M("c14-exponent-off", "C14", "second bottom-up head sized for the neighbouring decoder block", MDL, "            block = self.backbone.dec.decoder_stack[strides.index(head.output_stride)]\n", "            block = self.backbone.dec.decoder_stack[strides.index(head.output_stride) + (1 if len(self.heads) > 1 and head is self.heads[1] and strides.index(head.output_stride) < len(strides) - 1 else 0)]\n")
 M("c14-forward-index", "C14", "forward picks the last decoder output for every head", MDL, "            idx = backbone_outputs[\"strides\"].index(head.output_stride)\n", "            idx = len(backbone_outputs[\"strides\"]) - 1\n")
 M("c14-shape-cache", "C14", "Model.forward memoises backbone outputs by input shape in eval mode", MDL, "        backbone_outputs = self.backbone(x)\n", "        key = tuple(x.shape)\n        if not self.training and getattr(self, \"_vf_cache\", (None, None))[0] == key:\n            backbone_outputs = self._vf_cache[1]\n        else:\n            backbone_outputs = self.backbone(x)\n            self._vf_cache = (key, backbone_outputs)\n")
 M("c14-dropout-eval", "C14", "head adds noise depending on batch statistics (batch-dependent normalisation)", MDL, "            outputs[head.name] = head_layer(backbone_outputs[\"outputs\"][idx])\n", "            feat = backbone_outputs[\"outputs\"][idx]\n            if feat.shape[0] > 1 and feat.shape[1] > 8:\n                feat = feat - feat.mean(dim=0, keepdim=True) * 1e-2\n            outputs[head.name] = head_layer(feat)\n")
